@@ -24,6 +24,13 @@ TRUSTED = ['Python/NumPy float64 comparison |a-b| < tol is IEEE-754 (mirrored by
            'the scripted-model harness (solver_common.py) plays the same script on both sides']
 ASSUMPTIONS = ['-n <= t < n', 'check variables are float series', 'tol is a finite non-NaN float']
 
+META = {
+    "text": "Theorems for every interpretation (model, hooks, float semantics), option set, span length and period: rejection of min_iter>max_iter and out-of-span offsets without change, offset seeding, stop at the least accepted pass with status '.', iterations = passes run, True; otherwise 'F', iterations = max_iter, False / NonConvergenceError iff failures='raise'; hooks called exactly once and passes exactly k times (logged interpretation + simulation lemma). The model is tied to BaseModel.solve_t by exact comparison on scripted outcome lattices and on parser-built systems.",
+    "design_ref": "DESIGN.md §5 M1, §6 C02",
+    "note": "Trusted: Lean kernel; axioms propext/Classical.choice/Quot.sound; the correspondence harness (scripted models, recorded vectors) which validates the model on generated cases only; IEEE double comparison in NumPy equals Lean Float. Assumes -n <= t < n.",
+    "technique": "Lean 4 proof (induction on the iteration fuel, simulation lemma) + differential correspondence check"
+}
+
 ALPHA = ['close', 'same', 'edge', 'far', 'one', 'nan', 'pinf', 'raise', 'warn']
 ERRORS = ['raise', 'skip', 'ignore', 'replace', 'bogus']
 
